@@ -10,6 +10,11 @@ import Mamba.Drv.C07
 import Mamba.Drv.C08
 import Mamba.Drv.C09
 import Mamba.Drv.C10
+import Mamba.Drv.C06
+import Mamba.Drv.C03
+import Mamba.Drv.C04
+import Mamba.Drv.C11
+import Mamba.Drv.C12
 
 namespace Drv
 
@@ -43,6 +48,18 @@ def dispatch (line : String) : String :=
   | "c09w" :: args => C09.handleW args
   | "c10" :: args => C10.handle args
   | "c10d" :: args => C10.handleD args
+  | "c06" :: args => C06.handle args
+  | "c03chain" :: args => C03.handleChain args
+  | "c03cls" :: args => C03.handleCls args
+  | "c04seq" :: args => C04.handle args
+  | "planar" :: args => C11.handlePlanar args
+  | "minorcert" :: args => C11.handleCert args
+  | "pknown" :: args => C11.handleKnown args
+  | "pemb" :: args => C11.handleEmb args
+  | "dawg" :: args => C12.handleDawg args
+  | "gob" :: args => C12.handleGob args
+  | "gobdec" :: args => C12.handleGobDec args
+  | "varint" :: args => C12.handleVarint args
   | _ => "bad-op"
 
 end Drv
